@@ -830,7 +830,16 @@ func (c *Ctx) havocObject(st *State, x Term) {
 		}
 	}
 	if t == nil || !isStructPtr(t) {
+		// an object of unknown dynamic type: any field map may change - but ghost variables are not fields of any object
+		ghosts := map[string]Term{}
+		for k := range c.V.specs.Ghosts {
+			key := "G_" + k
+			ghosts[key] = c.heapCur(st, key, c.V.sortOfTypeName(c.V.specs.Ghosts[k].Type))
+		}
 		c.havocAll(st)
+		for k, v := range ghosts {
+			st.heap[k] = v
+		}
 		return
 	}
 	s, owner := structOf(t)
